@@ -700,7 +700,7 @@ class excerpt_is_self_contained:
     """C08 (claimed core class): every measure-range export is a well-formed Humdrum document that re-imports without errors, and
     every note in it is governed by the same clef, key signature and time signature as in the full score."""
     def inputs(g):
-        score, rng = kern_score(g, comments=True, signatures_first=True, mid_signatures=False)
+        score, rng = kern_score(g, comments=True, signatures_first=True, mid_signatures=False, hidden_bars=True)
         M = len(measures_of(score))
         a = rng.randint(1, M)
         return {'score': score, 'a': a, 'b': rng.randint(a, M)}
